@@ -5,6 +5,7 @@ CONSTANTS
   Q = 1
   MaxInstr = 4
   MaxFail = 1
+  GatedFinish = FALSE
   Eager = TRUE
   RecoverUsesStatePin = TRUE
   StatusAllListsDirect = TRUE
